@@ -18,6 +18,21 @@ pub fn compile(vm: &RootedThread, name: &str, src: &str) -> Result<String, Strin
 }
 
 pub fn run_json(vm: &RootedThread, name: &str, json: &str) -> Result<(String, String), String> {
+    // alternate between a deserializer that can lend strings from its input and one that cannot (a reader)
+    if json.len() % 2 == 1 {
+        let mut deserializer = serde_json::Deserializer::from_reader(json.as_bytes());
+        let r = block_on(Precompiled(&mut deserializer).run_expr(
+            &mut vm.module_compiler(&mut vm.get_database()),
+            &**vm,
+            name,
+            "",
+            (),
+        ));
+        return match r {
+            Ok(v) => Ok((render(v.value.get_variant()), v.typ.to_string())),
+            Err(e) => Err(e.to_string()),
+        };
+    }
     let mut deserializer = serde_json::Deserializer::from_str(json);
     let r = block_on(Precompiled(&mut deserializer).run_expr(
         &mut vm.module_compiler(&mut vm.get_database()),
